@@ -87,8 +87,8 @@ def wrapped(core_spelling, wrappers, pads=("", " ")):
 
 class C17(PropBase):
     pid = "C17"
-    translators = []
-    coq_dirs = ["Base", "C17"]
+    translators = ["join_sites.py"]
+    coq_dirs = ["Base", "C17", "Gen"]
     bins = ["c17"]
     rule = ("cases = (code_file, debug_file, debug id text, code id text); strings exhaustive over the alphabet "
             "{a . / \\ : NUL e-acute} up to length 5 used as code_file and debug_file at once, up to length 4 paired with "
@@ -349,6 +349,61 @@ class C17(PropBase):
             cases.append("B %s" % hx(bsuf))
         return list(dict.fromkeys(cases))
 
+    # ------------------------------------------------------------------ end-to-end FILESYSTEM probe (consumers)
+    ESC_NAMES = ["../outside/secret.bin", "../../outside/secret.bin", "../x", "../../x", "../../../x", "a/../../x", "a/../../../outside/secret.bin",
+                 "./../x", "..//x", "../outside/secret.bin.pdb", "../x.pdb", "../x.sym", "../../x.dll", "@T@/outside/abs.pdb", "@T@/x", "@T@/root/x",
+                 "@T@/outside/secret.bin", "/@T@/x", "//@T@/x", "sub/dir/file.pdb", "sub/../../x", "./a.pdb", "a.pdb", "..", ".", "",
+                 "..\\..\\x", "..\\x", "C:\\..\\..\\x", "../x (deleted)", "../x ", " ../x", "../outside/", "@T@/outside/", "../cache/x",
+                 "../tmp/x", "../symbols/../x", "@T@/root/cache/../../x"]
+
+    def fs_cases(self, seed):
+        """whole-name escapes and the hostile leaves, as code file and as debug file, for modules that have every id
+        (so that all three FileKinds produce lookups)"""
+        names = list(self.ESC_NAMES)
+        for core, spellings in CORE_SPELLINGS.items():
+            for sp in spellings:
+                names += [d + sp for d in DIRS] + ["../" + sp, sp + "/../x", "../x/" + sp]
+        for sp in EXACT:
+            names += wrapped(sp, WS + MARKERS + EXTS[:4], pads=("", " "))
+        for l in self.source_literals():
+            names += ["../" + l, l + "/../../x", "../x" + l, "@T@/outside/" + l]
+        cases = []
+        for n in dict.fromkeys(names):
+            if any("\ud800" <= ch <= "\udfff" for ch in n):
+                continue
+            for cf, df in (("k.dll", n), (n, "t.pdb"), (n, n)):
+                cases.append("%s %s %s %s" % (hx(cf), hx(df), self.IDENT, hx("5a")))
+        return list(dict.fromkeys(cases))
+
+    def fs_probe(self, ctx):
+        cases = self.fs_cases(ctx["seed"]) if not ctx.get("replay") else [c for c in ctx["cases"] if c and not c.startswith("B ")]
+        out = []
+        stats = {"returned": 0, "created": 0}
+        for prof in self.profiles:
+            exe = ctx["exes"][("c17", prof)]
+            ans, dead = vlib.run_lines([exe, "--fs-probe"], cases, timeout=300, mem_gb=8, shards=16)
+            for idx, why in dead:
+                out.append({"case": cases[idx], "profile": prof, "found_input": True,
+                            "what": "fs probe: implementation child died or hung on this case (%s)" % why})
+            for c, a in zip(cases, ans):
+                if a is None:
+                    continue
+                f = a.split("|", 2)
+                if a.startswith("P;;"):
+                    out.append({"case": c, "profile": prof, "found_input": True, "what": "fs probe panicked: " + a[3:200]})
+                elif f[0] != "F" or f[1] not in ("ok", "ESC"):
+                    out.append({"case": c, "profile": prof, "found_input": True, "what": "fs probe: unparseable answer " + a[:100]})
+                elif f[1] == "ESC":
+                    out.append({"case": c, "profile": prof, "found_input": True, "what": "fs probe: " + f[2]})
+                else:
+                    r, n = f[2].split("|")
+                    stats["returned"] += int(r)
+                    stats["created"] += int(n)
+        ctx["info"]["fs_probe_cases"] = len(cases) * len(self.profiles)
+        ctx["info"]["fs_probe_paths_returned"] = stats["returned"]
+        ctx["info"]["fs_probe_files_created"] = stats["created"]
+        return out
+
     @staticmethod
     def _targets(field):
         return [unhx(r).decode("utf-8", "replace") for r in field.split(",")] if field else []
@@ -410,7 +465,7 @@ class C17(PropBase):
         ctx["info"]["url_probe_cases"] = len(cases) * len(self.profiles)
         ctx["info"]["url_probe_requests_observed"] = n_req
         ctx["info"]["url_probe_predictions_compared"] = n_cmp
-        return out
+        return out + self.fs_probe(ctx)
 
     def nontrivial(self, case, ans):
         return any(f not in ("N", "P") for f in ans.split("|", 1)[0].split(";"))
